@@ -133,6 +133,40 @@ fn check_name(s: &str, obs: &mut Obs) -> CaseResult {
         Ok(_) => return Err(fail("CredentialManagement", "wrong variant".into())),
         Err(e) => return Err(fail("CredentialManagement", format!("rejected 0x{:02x}", e as u8))),
     }
+    // 5. the same entity with its members encoded in another order (legal CBOR, not canonical):
+    // a decoder may refuse it, but if it accepts, the names are the same prefixes
+    {
+        const PERMS: [[usize; 3]; 6] = [[0, 1, 2], [0, 2, 1], [1, 0, 2], [1, 2, 0], [2, 0, 1], [2, 1, 0]];
+        let members = [ks("id", Value::Bytes(vec![1, 2, 3])), ks("name", text(s)), ks("displayName", text(s))];
+        let perm = PERMS[(s.len() + s.as_bytes().first().copied().unwrap_or(0) as usize) % 6];
+        let shuffled = Value::Map(perm.iter().map(|i| members[*i].clone()).collect());
+        let ub = refcbor::encode(&shuffled);
+        obs.sub("member-order-permuted", &[b"perm", &ub]);
+        if let Ok(u) = cbor_deserialize::<PublicKeyCredentialUserEntity>(&ub) {
+            verify("user.name(permuted member order)", u.name.as_deref(), true)?;
+            verify("user.displayName(permuted member order)", u.display_name.as_deref(), true)?;
+            if u.id.as_slice() != [1, 2, 3] {
+                return Err(fail("user.id(permuted member order)", format!("id {:?}", u.id)));
+            }
+        } else {
+            obs.label("member-order-permuted:rejected");
+        }
+        let mc = Value::Map(vec![
+            (Value::int(1), Value::Bytes(vec![7; 32])),
+            (Value::int(2), Value::Map(vec![ks("name", text(s)), ks("id", text("example.org"))])),
+            (Value::int(3), shuffled),
+            (Value::int(4), Value::Array(vec![Value::Map(vec![ks("alg", Value::int(-7)), ks("type", text("public-key"))])])),
+        ]);
+        let mut msg = vec![CMD_MC];
+        msg.extend_from_slice(&refcbor::encode(&mc));
+        let decoded = Request::deserialize(&msg);
+        if let Ok(Request::MakeCredential(r)) = &decoded {
+            verify("MakeCredential.rp.name(permuted member order)", r.rp.name.as_deref(), true)?;
+            verify("MakeCredential.user.name(permuted member order)", r.user.name.as_deref(), true)?;
+            verify("MakeCredential.user.displayName(permuted member order)", r.user.display_name.as_deref(), true)?;
+        }
+        drop(decoded);
+    }
     if moved {
         obs.nontrivial(&[s.as_bytes()]);
     }
@@ -410,7 +444,7 @@ pub fn gens() -> Vec<Gen> {
     vec![G_STRADDLE, G_RANDOM, G_ICON, G_ILL, G_NAME_C, G_ICON_C, G_SCALAR]
 }
 
-pub const RULE: &str = "(a) enumerated: strings pad || w1..w8 || tail with pad = 56..64 ASCII bytes and every arrangement of character widths 1-4 in the 8 characters straddling byte 64 (thorough: all 4^8 patterns x 9 alignments; quick: all 4^5 patterns of the first five straddling characters x 9 alignments, remaining three random), several scalars per width incl. U+0000, U+D7FF, U+FFFF, U+10FFFF; (b) proptest: random Unicode text of 0..300 bytes; (c) icons of every length 0..300 (mixed-width text) as user icon, rp icon and legacy url; (d) ill-formed UTF-8: a valid text with one byte replaced by 0x80/0xC0/0xE0/0xF8/0xFF at a random position, truncated multi-byte sequences, surrogates, overlongs, cut characters, in each of rp.name, user.name, user.displayName, user.icon, rp.icon. Every string goes through the stand-alone user and rp entities, a MakeCredential request and a CredentialManagement updateUserInformation request. Oracle: names equal the prefix ending at the largest char boundary <= 64 computed with str::is_char_boundary, valid UTF-8, <= 64 bytes; icon <= 128 kept verbatim, longer reported absent with the request accepted; rp icon/url of any length accepted; text that std::str::from_utf8 rejects must be rejected (InvalidCbor). Non-trivial: a name longer than 64 bytes whose byte 64 is not a boundary (the cut had to move), an icon of >= 127 bytes, or an actually ill-formed text; evaluations count decode paths.";
+pub const RULE: &str = "(a) enumerated: strings pad || w1..w8 || tail with pad = 56..64 ASCII bytes and every arrangement of character widths 1-4 in the 8 characters straddling byte 64 (thorough: all 4^8 patterns x 9 alignments; quick: all 4^5 patterns of the first five straddling characters x 9 alignments, remaining three random), several scalars per width incl. U+0000, U+D7FF, U+FFFF, U+10FFFF; (b) proptest: random Unicode text of 0..300 bytes; (c) icons of every length 0..300 (mixed-width text) as user icon, rp icon and legacy url; (d) ill-formed UTF-8: a valid text with one byte replaced by 0x80/0xC0/0xE0/0xF8/0xFF at a random position, truncated multi-byte sequences, surrogates, overlongs, cut characters, in each of rp.name, user.name, user.displayName, user.icon, rp.icon. Every string goes through the stand-alone user and rp entities, a MakeCredential request and a CredentialManagement updateUserInformation request, and additionally through a user entity (stand-alone and inside MakeCredential) whose members are encoded in one of the six orders of id / name / displayName (if the decoder accepts the non-canonical order, the result must be the same). Oracle: names equal the prefix ending at the largest char boundary <= 64 computed with str::is_char_boundary, valid UTF-8, <= 64 bytes; icon <= 128 kept verbatim, longer reported absent with the request accepted; rp icon/url of any length accepted; text that std::str::from_utf8 rejects must be rejected (InvalidCbor). Non-trivial: a name longer than 64 bytes whose byte 64 is not a boundary (the cut had to move), an icon of >= 127 bytes, or an actually ill-formed text; evaluations count decode paths.";
 pub const ASSUMPTIONS: &[&str] = &["str::is_char_boundary / std::str::from_utf8 are the reference for boundaries and well-formedness", "debug assertions make a failed unwrap_unchecked abort"];
 
 pub fn run(ctx: &mut Ctx) {
